@@ -33,10 +33,11 @@ CONSTANTS
                        \*       FALSE: it is chosen once, with the value the flag had when the client was CONSTRUCTED - wrong for the did:web
                        \*       resolver of a node, which vdr.Configure builds before http.Engine.Configure (registered last) switches the flag on
     Builds,            \* when the resolver (and its HTTP client) is constructed relative to strict mode being switched on
-    SlashKeptEncoded,  \* TRUE: "%2F" inside a path segment stays inside that segment of the fetched URL.  FALSE: web.go appends
-                       \*       "/did.json" to URL.Path only, RawPath is lost and the slash becomes a separator
-    EscapedRoundTrip,  \* TRUE: URLToDID re-escapes everything DIDToURL left escaped.  FALSE: only the sub-delims are re-escaped, an
-                       \*       escaped space / non-ASCII octet comes back raw and the result is not a DID
+    SlashKeptEncoded,  \* TRUE: "%2F" inside a path segment stays inside that segment of the fetched URL (the tree since the repair of
+                       \*       F18-C18).  FALSE: web.go appends "/did.json" to URL.Path only, RawPath is lost and the slash becomes a separator
+    EscapedRoundTrip,  \* TRUE: URLToDID re-escapes everything DIDToURL left escaped (the tree since the repair of F19-C18: URL.EscapedPath()).
+                       \*       FALSE: it reads the decoded URL.Path and re-escapes only the sub-delims: an escaped space / non-ASCII octet /
+                       \*       '?' / '#' / '%' comes back raw and the result is not a DID, or not the same DID
     DotSegmentsKept,   \* TRUE: "." and ".." path segments of the identifier reach the server as they are written (the tree: web.go appends
                        \*       "/did.json" to the path).  FALSE: the path is cleaned before the request (path.Join, ResolveReference ...), the fetch
                        \*       goes to the location that ANOTHER identifier encodes (did:web:h:a:..:b is fetched from the location of did:web:h:b)
@@ -77,8 +78,8 @@ InSubGrammar(h, p) == /\ h \in {"name", "nameport", "mixedcase"}
 RoundTrips(h, p)  == /\ HostAccepted(h) /\ ~PathRejected(p)
                      /\ h \notin {"lowerhex", "pctalpha", "idn"}   \* not canonical / not expressible: comes back different
                      /\ CASE p = "pctother" -> EscapedRoundTrip
-                          [] p = "pctqf"    -> FALSE      \* '?' and '#' come back raw: not a DID
-                          [] p = "dblenc"   -> FALSE      \* "%25" is decoded by url.Parse and never re-encoded
+                          [] p = "pctqf"    -> EscapedRoundTrip   \* read from the decoded path '?' and '#' come back raw: not a DID
+                          [] p = "dblenc"   -> EscapedRoundTrip   \* read from the decoded path "%25" comes back as "%": another DID
                           [] OTHER          -> TRUE
 
 (*--------------------------- server answer classes ----------------------*)
